@@ -126,6 +126,9 @@ class Recorder:
         self.calls = []
 
 
+_WARM = []
+
+
 def make_fn(name, rec, bad=None):
     def post(r):
         if bad == "bad_type":
@@ -194,6 +197,11 @@ def evaluate(rc, stats):
     bad = special if special and special.startswith("bad_") else None
     user = make_fn(fname, rec, bad=bad)
     adapt = einx.numpy.adapt_numpylike_reduce if adapter == "reduce" else einx.numpy.adapt_numpylike_elementwise
+    if not _WARM:
+        # the first function adapted in a process has no keyword-only options; all instrumented functions share one
+        # qualified name, so anything einx remembers per function *name* would leak from this one to the later ones
+        _WARM.append(einx.numpy.adapt_numpylike_reduce(make_fn("plain", Recorder())))
+        _WARM.append(einx.numpy.adapt_numpylike_elementwise(make_fn("tri", Recorder())))
     ein = adapt(user)
     stats.count("adapter:" + adapter)
     stats.count("fn:" + fname)
